@@ -84,3 +84,27 @@ VARIANTS += [
  V("c07-r1-write-outside-mutex", "C07", "C07.R1", "commit.go",
    "	mem, err := p.env.write(b, syncWG, syncErr)\n\n	p.mu.Unlock()", "	p.mu.Unlock()\n\n	mem, err := p.env.write(b, syncWG, syncErr)"),
 ]
+
+VARIANTS += [
+ V("c13-g1-reintroduce-F1", "C13", "C13.G1", "range_keys.go",
+   "if i.readState != nil && !i.opts.OnlyReadGuaranteedDurable {", "if i.readState != nil {"),
+ V("c13-g1-point-path-unguarded", "C13", "C13.G1", "db.go",
+   "	if dbi.opts.OnlyReadGuaranteedDurable {\n		memtables = nil\n	} else {", "	if dbi.opts.OnlyReadGuaranteedDurable && dbi.batch != nil {\n		memtables = nil\n	} else {"),
+ V("c13-t1-rangekey-reuse", "C13", "C13.T1", "iterator.go",
+   "	reuseRangeKey := i.rangeKey != nil &&\n		i.err == nil &&\n		// If OnlyReadGuaranteedDurable changed, the iterator stack might not include\n		// the correct memtables.\n		o.OnlyReadGuaranteedDurable == i.opts.OnlyReadGuaranteedDurable &&",
+   "	reuseRangeKey := i.rangeKey != nil &&\n		i.err == nil &&"),
+ V("c13-o1-flag-with-snapshot", "C13", "C13.O1", "db.go",
+   "if (batch != nil || seqNum != 0) && (o != nil && o.OnlyReadGuaranteedDurable) {", "if (batch != nil) && (o != nil && o.OnlyReadGuaranteedDurable) {"),
+ V("c10-o2b-failover-no-dirsync", "C10", "C10.O2b", "wal/failover_writer.go",
+   "		err = dir.Sync()\n", "		err = nil\n"),
+ V("c10-o3a-skip-provider-sync", "C10", "C10.O3a", "compaction.go",
+   "	if result.Err == nil {\n		result.Err = d.objProvider.Sync()\n	}\n	return result", "	if result.Err == nil && len(result.Tables) > 1 {\n		result.Err = d.objProvider.Sync()\n	}\n	return result"),
+ V("c10-o3b-copy-compaction-no-sync", "C10", "C10.O3b", "compaction.go",
+   "	if err := d.objProvider.Sync(); err != nil {\n		return nil, compact.Stats{}, []compact.OutputBlob{}, err\n	}\n	deleteOnExit = false", "	deleteOnExit = false"),
+ V("c10-o3c-ingest-sync-after-alloc", "C10", "C10.O3c", "ingest.go",
+   "	if err := d.objProvider.Sync(); err != nil {\n		if err2 := ingestCleanup(d.objProvider, loadResult.local, nil); err2 != nil {", "	if err := error(nil); err != nil {\n		if err2 := ingestCleanup(d.objProvider, loadResult.local, nil); err2 != nil {"),
+ V("c10-o3e-close-without-sync", "C10", "C10.O3e", "objstorage/objstorageprovider/vfs_writable.go",
+   "	if err == nil {\n		err = w.file.Sync()\n	}\n	err = firstError(err, w.file.Close())", "	err = firstError(err, w.file.Close())"),
+ V("c10-e1-drop-manifest-sync-error", "C10", "C10.E1", "version_set.go",
+   '		if err := vs.manifestFile.Sync(); err != nil {\n			return errors.Wrap(err, "MANIFEST sync failed")\n		}\n		if newManifestFileNum != 0 {', '		_ = vs.manifestFile.Sync()\n		if newManifestFileNum != 0 {'),
+]
